@@ -66,7 +66,7 @@ func c09timeCall(f *flow.Func, call *ast.CallExpr) string {
 // c09Handle: R-C09-2.
 func c09Handle(c *core.Ctx) {
 	f := fn(c, c09flt, "RateLimiter", "Handle")
-	rlF := structField(c, c09flt, "URLRule", "rl")
+	rlF, _, _ := c09filterFields(c)
 	if f == nil || rlF == nil {
 		return
 	}
@@ -414,9 +414,7 @@ func c09Handle(c *core.Ctx) {
 // loops, the comparison and the carry-over may live in helpers; variables are identified across
 // helper boundaries by c09index.canon; loops over the rules may be range / index / three-clause.
 func c09Reload(c *core.Ctx) {
-	rlF := structField(c, c09flt, "URLRule", "rl")
-	urlsF := structField(c, c09flt, "Spec", "URLs")
-	specF := structField(c, c09flt, "RateLimiter", "spec")
+	rlF, urlsF, specF := c09filterFields(c)
 	pkg := c.Prog.Pkg(c09flt)
 	if rlF == nil || urlsF == nil || specF == nil || pkg == nil {
 		return
@@ -823,7 +821,12 @@ func c09Reload(c *core.Ctx) {
 	keepCheck := func(st *flow.State, at ast.Node) {
 		for _, cr := range carries {
 			deq, same := guardsHold(st, cr)
-			if deq && same && !st.Is(carried, flow.True) && !st.Is(cr.g.NilKey(cr.rhs), flow.True) && badKeep == nil {
+			// the lookup variable itself says "nothing found" (e.g. `if prev == nil { create }`)
+			srcNil := false
+			if id := c09root(cr.rhs); id != nil && st.Is(cr.g.NilKey(id), flow.True) {
+				srcNil = true
+			}
+			if deq && same && !srcNil && !st.Is(carried, flow.True) && !st.Is(cr.g.NilKey(cr.rhs), flow.True) && badKeep == nil {
 				badKeep = &bad{st, at, "the previous generation has an identical URL rule with an identical policy, yet its limiter is not taken over: reloading with an unchanged rule loses the accumulated reservations"}
 			}
 		}
@@ -1033,25 +1036,59 @@ func c09Policy(c *core.Ctx) {
 		return
 	}
 	sinks := 0
+	perFn := map[*ast.FuncDecl][]c09policySink{}
+	var order []*ast.FuncDecl
+	add := func(fd *ast.FuncDecl, s c09policySink) {
+		if _, seen := perFn[fd]; !seen {
+			order = append(order, fd)
+		}
+		perFn[fd] = append(perFn[fd], s)
+	}
 	for _, fd := range c09pkgFuncs(pkg) {
 		f := flow.NewFunc(pkg, fd)
-		var news []*ast.CallExpr
 		for _, call := range calls(fd.Body, false) {
-			if calleeIs(f, call, c09lib+".New") && len(call.Args) == 1 {
-				news = append(news, call)
+			if !calleeIs(f, call, c09lib+".New") || len(call.Args) != 1 {
+				continue
 			}
+			sinks++
+			// the policy may be built by a same-package helper (`librl.New(p.toLibPolicy())`):
+			// then the helper's return statements are the points where the policy is complete
+			if mk, ok := c09resolve(f, call.Args[0]).(*ast.CallExpr); ok {
+				if fo, ok := f.Callee(mk).(*types.Func); ok && fo.Pkg() == pkg.Types {
+					if hd := declOf(pkg, fo); hd != nil && fo.Type().(*types.Signature).Results().Len() == 1 {
+						ast.Inspect(hd.Body, func(n ast.Node) bool {
+							switch r := n.(type) {
+							case *ast.FuncLit:
+								return false
+							case *ast.ReturnStmt:
+								if len(r.Results) == 1 {
+									add(hd, c09policySink{r, r.Results[0]})
+								}
+							}
+							return true
+						})
+						continue
+					}
+				}
+			}
+			add(fd, c09policySink{call, call.Args[0]})
 		}
-		if len(news) == 0 {
-			continue
-		}
-		sinks += len(news)
+	}
+	for _, fd := range order {
 		c.Count("functions_analysed", 1)
-		c09policyFn(c, f, declName(pkg, fd), news, libTO, specTO)
+		c09policyFn(c, flow.NewFunc(pkg, fd), declName(pkg, fd), perFn[fd], libTO, specTO)
 	}
 	c.RequireCount("R-C09-5", "limiter constructor call sites in "+c09flt, sinks, 1)
 }
 
-func c09policyFn(c *core.Ctx, f *flow.Func, name string, news []*ast.CallExpr, libTO, specTO *types.Var) {
+// c09policySink is a point where the limiter's policy is complete: the constructor call (arg =
+// its argument) or a return statement of a helper that builds the policy (arg = the result).
+type c09policySink struct {
+	at  ast.Node
+	arg ast.Expr
+}
+
+func c09policyFn(c *core.Ctx, f *flow.Func, name string, news []c09policySink, libTO, specTO *types.Var) {
 	cons := name + "|configured timeoutDuration reaches the limiter policy"
 	isSpecStr := func(e ast.Expr) bool { return c09fieldOf(f, c09resolve(f, e)) == specTO }
 	isDuration := func(e ast.Expr) bool {
@@ -1238,8 +1275,9 @@ func c09policyFn(c *core.Ctx, f *flow.Func, name string, news []*ast.CallExpr, l
 		c.Violate("R-C09-5", cons, pos(c, wrong), "the timeout of the limiter's policy is parsed from "+types.ExprString(wrong.Args[0])+", which is not the policy's timeoutDuration setting")
 		return
 	}
-	for _, sink := range news {
-		arg := c09resolve(f, sink.Args[0])
+	for _, sk := range news {
+		sink := sk.at
+		arg := c09resolve(f, sk.arg)
 		var bad, unset *flow.State
 		why, undecided := "", ""
 		n := 0
